@@ -26,6 +26,10 @@ where
             if i == k {
                 lower[i][i] = 1_f64;
             } else {
+                if upper[i][i] == 0.0 {
+                    // Vanishing leading minor: no LU factorisation without pivoting
+                    return Err(SolverError::SingularMatrix);
+                }
                 let mut total = 0.0;
                 for j in 0..i {
                     total += lower[k][j] * upper[j][i];
